@@ -549,6 +549,9 @@ func (c *Ctx) onlyCaller(fn *ssa.Function) ssa.CallInstruction {
 	if _, isGo := sites[0].(*ssa.Go); isGo {
 		return nil
 	}
+	if sites[0].Parent() == fn {
+		return nil // recursion: the call-site facts would be assumed to prove themselves
+	}
 	if n := c.P.CHA().Nodes[fn]; n != nil {
 		for _, e := range n.In {
 			if e.Site != sites[0] {
